@@ -94,9 +94,22 @@ def run(ctx):
     ctx.cov["nl_max_guarded_options"] = len(guarded)
 
     def do_big(job):
-        g, m, v = job
-        p = os.path.join(root, "big-%s-%d-%d.cfg" % (g, m, v))
-        open(p, "w").write("nl_max = %d\n%s = %d\n" % (m, g, v))
+        g, m, v, others = job
+        p = os.path.join(root, "big-%s-%d-%d-%s.cfg" % (g, m, v, others))
+        lines = ["nl_max = %d" % m, "%s = %d" % (g, v)]
+        if others != "none" and m > 0:
+            # the other guarded options set as well, each within nl_max: the verdict on g must not depend on them
+            import random
+            r_ = random.Random(hash((g, m, v, others)) & 0xffffff)
+            for g2 in guarded:
+                o2 = byname.get(g2)
+                if g2 == g or not o2 or o2["kind"] not in ("num", "unum"):
+                    continue
+                v2 = m if others == "allmax" else r_.randint(0, m)
+                if o2["bounded"] and not (o2["min"] <= v2 <= o2["max"]):
+                    continue
+                lines.insert(r_.randint(0, len(lines)), "%s = %d" % (g2, v2))
+        open(p, "w").write("\n".join(lines) + "\n")
         rc, out, err = sh(["strace", "-o", p + ".st", "-e", "trace=openat", unc, "-c", p, "-f", sample_src], timeout=60)
         st = open(p + ".st", errors="replace").read() if os.path.exists(p + ".st") else ""
         return {"e": "TooBig", "opt": g, "nlmax": m, "v": v, "rc": rc, "sourceread": ("misc.c" in st), "outlen": len(out)}
@@ -109,7 +122,10 @@ def run(ctx):
         for (m, v) in ((2, 3), (2, 2), (0, 3)):
             if o["bounded"] and not (o["min"] <= v <= o["max"]):
                 continue
-            bigjobs.append((g, m, v))
+            bigjobs.append((g, m, v, "none"))
+            if m > 0:
+                bigjobs.append((g, m, v, "allmax"))
+                bigjobs.append((g, m, v, "rand"))
     bigs = pmap(do_big, bigjobs, nproc=12)
     # ---- (3) arbitrary text: no crash, no hang
     goods = [l for lab, ls in eng.good_files(reg, ctx.rng, quick) for l in ls]
